@@ -13,6 +13,8 @@ def cfgOk (n : Nat) : Bool :=
   let tbl := mkTable Gen.hashesConf en
   -- first match = unique match, empty prefixes last
   C18.prefixFree tbl &&
+  -- what the authentication round trip needs (C01_roundtrip): tags begin outside the DES salt alphabet, rows carry their method's tag
+  C18.TableOk tbl &&
   -- every enabled method is in the table under its own prefix and entry points, every disabled one is absent
   Gen.hashesConf.all (fun e =>
     if en e.name then tbl.any (fun h => h.crypt == e.name && h.gensalt == e.name && h.pfx == e.pfx && h.nrbytes == e.nrbytes && h.strong == e.strong)
